@@ -252,7 +252,7 @@ async fn observe_pings(c: &mut Client, n: u64, rounds: u8) -> (u32, bool, bool) 
     (pongs, false, false)
 }
 
-async fn run_duplicate(env: &Env, seed: u64, n: u64, by_conn: bool) -> Outcome {
+async fn run_duplicate(env: &Env, seed: u64, n: u64, by_conn: bool, two_step: bool) -> Outcome {
     let mut o = Outcome { mode: Mode::Duplicate, by_conn, request_found: None, pongs_after: 0, datagram_after: false, ended: false, bystander_ok: None, inconclusive: None, registered_before_request: Some(true) };
     let secret = rig::key(seed, n);
     let id = secret.public();
@@ -276,6 +276,11 @@ async fn run_duplicate(env: &Env, seed: u64, n: u64, by_conn: bool) -> Outcome {
     if ping(&mut c2, [0xa2; 8], Duration::from_secs(20)).await != Seen::Pong || ping(&mut c1, [0xa3; 8], Duration::from_secs(20)).await != Seen::Pong {
         o.inconclusive = Some("client-not-served-before-request");
         return o;
+    }
+    if two_step {
+        // two-step history: the older duplicate is revoked by connection id and, before it has
+        // unregistered, the endpoint is revoked by endpoint id (by_conn is false here)
+        let _ = clients.disconnect(id, Some(cid1));
     }
     o.request_found = Some(clients.disconnect(id, if by_conn { Some(cid1) } else { None }));
     // the older connection was named (or covered) by the request
@@ -433,7 +438,7 @@ fn main() {
             for rep_i in 0..10 {
                 let o = match r["mode"].as_str() {
                     Some("gated_after_register") => run_gated(&env, seed, n + rep_i * 1000, by_conn, true).await,
-                    Some("duplicate_connections") => run_duplicate(&env, seed, n + rep_i * 1000, by_conn).await,
+                    Some("duplicate_connections") => run_duplicate(&env, seed, n + rep_i * 1000, by_conn, r["two_step"].as_bool().unwrap_or(false)).await,
                     Some("free_running") => {
                         gate::stress(GATE, 300, seed);
                         run_free(&env, seed, n + rep_i * 1000, by_conn, r["delay_us"].as_u64().unwrap_or(0)).await
@@ -456,8 +461,12 @@ fn main() {
         for i in 0..n_gated / 2 {
             n += 1;
             let by_conn = i % 2 == 0;
-            let o = run_duplicate(&env, seed, n, by_conn).await;
-            judge(&rep, &o, json!({"mode": "duplicate_connections", "by_conn": by_conn, "n": n, "seed": seed}));
+            let two_step = !by_conn && i % 4 == 1;
+            let o = run_duplicate(&env, seed, n, by_conn, two_step).await;
+            if two_step {
+                rep.count("duplicate.two_step_conn_then_endpoint", 1);
+            }
+            judge(&rep, &o, json!({"mode": "duplicate_connections", "by_conn": by_conn, "two_step": two_step, "n": n, "seed": seed}));
         }
         rep.count("gate.trace_events", gate::trace().len() as u64);
         rep.count("gate.hold_timeouts", gate::timeouts());
